@@ -223,7 +223,7 @@ func init() {
 		ReplayUnit:  "TestC19Replay",
 		Units: []Unit{
 			{Name: "TestC19", Kind: "e2e", Checks: [2]int{6, 40}, Workers: [2]int{3, 8}},
-			{Name: "TestC19Foreign", Kind: "e2e", Checks: [2]int{30, 400}, Workers: [2]int{2, 4}, Pending: true},
+			{Name: "TestC19Foreign", Kind: "e2e", Checks: [2]int{30, 400}, Workers: [2]int{2, 4}},
 		},
 	}
 }
